@@ -3,7 +3,9 @@
 //!
 //! Case line: `<pipeline> <tok> <tok> …` — see `lean/Driver/Aggregation.lean` for the token grammar
 //! (the same line is sent to the Lean driver). Additional, oracle-only / trace pipelines:
-//!   `timed <interval ms> <tok>…`   WorkerSink with a short flush interval; toks `s0=<input>`, `p<ms>` (sleep), `F0`
+//!   `timed <interval> <tok>…`   WorkerSink with a real flush interval (`<n>` ms | `ns<n>` | `s<n>` | `max`; boundary
+//!        stream: 0, 1 ns, 1 ms, 1 h, 100 y, u64::MAX/2 s, u64::MAX s, Duration::MAX); toks `s0=<input>`, `p<ms>` (sleep), `F0`
+//!   `cap` / `keyonly`   SortAndMerge<0|1|2> inline capacities; an aggregated struct with a key and no aggregated field
 //!   `mt <kind> <producers> <flushes> <tok>…`  kind `w` (WorkerSink) | `m` (MutexSink); toks `s<p>=<input>`:
 //!        producer thread p merges the inputs carrying its number, in order; a flusher thread issues the flushes
 //!
